@@ -143,6 +143,10 @@ type Run struct {
 	NegFailing []string
 	NegTotal   int
 	NegRan     bool
+	// C13 bounded dispose stand-in
+	DFailing []string
+	DTotal   int
+	DRan     bool
 	// C04 bounded queue stand-in
 	QFailing []string
 	QTotal   int
@@ -277,6 +281,14 @@ func verifyRun(opts *RunOpts) (*Run, error) {
 			run.ExtraNotes = append(run.ExtraNotes, "bounded negotiation stand-in did not run: "+err.Error())
 		} else {
 			run.NegFailing, run.NegTotal, run.NegRan = f, total, true
+		}
+	}
+	if opts.Prop == "C13" {
+		f, total, err := runBoundedDispose(opts)
+		if err != nil {
+			run.ExtraNotes = append(run.ExtraNotes, "bounded dispose stand-in did not run: "+err.Error())
+		} else {
+			run.DFailing, run.DTotal, run.DRan = f, total, true
 		}
 	}
 	if opts.Prop == "C04" {
